@@ -63,7 +63,13 @@ func (cb *CircuitBreaker) IsOpen(endpointURL string) bool {
 			// check if it's been a long time, shouldn't have left you
 			// Without a dope beat to step to
 			lastAttempt := atomic.LoadInt64(&state.lastAttempt)
-			return time.Unix(0, lastAttempt).Add(time.Second).After(time.Now())
+			if time.Unix(0, lastAttempt).Add(time.Second).After(time.Now()) {
+				return true
+			}
+
+			// The previous probe is stale: let exactly one caller claim the
+			// next probe slot, otherwise every caller would be admitted
+			return !atomic.CompareAndSwapInt64(&state.lastAttempt, lastAttempt, now)
 		}
 		return true
 	}
